@@ -17,10 +17,12 @@
      - (finding FA2 -- a partial message in a non-first oneof member left the flag set -- was repaired in
        the code by commit "check required fields of every message-typed oneof member on unmarshal";
        the model follows the repaired code, C10_example_FA2_repaired replays the former witness);
-     - [wf_map]    map values do not need an init check.  With message values that need one the faithful
-       model refutes the statement for inputs with two value occurrences in one entry
-       (C10_fast_flag_sound_refuted_FA5, finding FA5); for canonical input it holds on the
-       implementation (harness), but is not proved: hence the name _partial;
+     - [msg_maps_wf]  the value type of a map either needs no init check or is a LEAF type (all its fields
+       of scalar kind, e.g. map<int32, TestRequired>); for such maps the theorem holds for ARBITRARY
+       input, duplicated key/value occurrences included (a required field, once decoded, is never
+       removed).  For value types with sub-messages the faithful model refutes the statement
+       (C10_fast_flag_sound_refuted_FA5, finding FA5: two value occurrences in one entry); the version
+       "canonical input, any value type" is checked on the implementation only: hence _partial;
      - [msg_ni_sound]  the needsInitCheck oracle is sound (a type it declares free of init checks has
        only initialized values); finding FA4 is a violation of exactly this by the implementation's memo.
    Lazy decoding: C10_unmarshal_lazy_exact_refuted_FA1 (finding FA1). *)
@@ -110,15 +112,18 @@ Theorem C10_allow_partial_no_error_marshal :
 Proof. exact msg_allow_partial_marshal. Qed.
 Print Assumptions C10_allow_partial_no_error_marshal.
 
-(* non-vacuity: the hypothesis of the flag theorems holds of a schema with a singular, a repeated
-   and a oneof message member that has a required field, and the theorem's conclusion is not
-   trivially true there: a partial input clears the flag *)
+(* non-vacuity: the hypothesis of the flag theorems holds of TestRequiredForeign (singular, repeated, map
+   value and oneof member of a message with a required field), and the theorem's conclusion is not
+   trivially true there: a partial input clears the flag; the map entry with a complete value keeps it *)
 Example C10_example_wf : msg_init_wf ex_wf (fun _ => true).
 Proof. exact ex_wf_ok. Qed.
 Example C10_example_flag :
   msg_init_flag ex_wf (fun _ => true) 100 0 (map n2b [10; 2; 8; 1; 34; 2; 8; 5]) = DOk true /\
   msg_init_flag ex_wf (fun _ => true) 100 0 (map n2b [10; 2; 8; 1; 34; 0]) = DOk false /\
-  msg_init_flag ex_wf (fun _ => true) 100 0 (map n2b [18; 0]) = DOk false.
+  msg_init_flag ex_wf (fun _ => true) 100 0 (map n2b [18; 0]) = DOk false /\
+  msg_init_flag ex_wf (fun _ => true) 100 0 (map n2b [26; 6; 8; 7; 18; 2; 8; 1]) = DOk true /\
+  msg_init_flag ex_wf (fun _ => true) 100 0 (map n2b [26; 8; 8; 7; 18; 2; 8; 1; 18; 0]) = DOk true /\
+  msg_init_flag ex_wf (fun _ => true) 100 0 (map n2b [26; 4; 8; 7; 18; 0]) = DOk false.
 Proof. vm_compute. repeat split; reflexivity. Qed.
 Example C10_example_FA2_repaired :
   msg_init_flag ex_fa2 (fun _ => true) 100 0 [n2b 18; n2b 0] = DOk false /\
